@@ -1,7 +1,8 @@
 (* C01 — Adaptive combination scheme is always a valid inclusion-exclusion scheme.
    Property theorems only; each is closed by `exact` of a lemma from Proofs/. *)
-From Coq Require Import ZArith List Bool Lia.
-From SG Require Import Model.CombiScheme Proofs.SchemeBasics Proofs.SchemeIE Proofs.SchemeInv Proofs.SchemeStd.
+From Coq Require Import ZArith List Bool Lia Permutation.
+From SG Require Import Model.CombiScheme Proofs.SchemeBasics Proofs.SchemeIE Proofs.SchemeInv Proofs.SchemeStd
+  Proofs.SchemeClosedForm.
 Import ListNotations.
 Open Scope Z_scope.
 
@@ -57,7 +58,35 @@ Print Assumptions C01_inclusion_exclusion.
 Print Assumptions C01_support.
 Print Assumptions C01_total_one.
 
-(* closed form = freshly initialised adaptive scheme. BOUNDED: d in 1..5, lmin in 0..3, lmax-lmin in 0..5
+(* closed form = freshly initialised adaptive scheme, GENERAL: for every dimension d = S n >= 1 and every
+   0 <= lmin <= lmax (exactly the arguments init_scheme accepts) the closed-form binomial scheme of getCombiScheme is a
+   permutation of the inclusion-exclusion coefficients of the freshly initialised adaptive index set
+   (Moebius inversion of the dominating sums + Pascal closed form of the alternating cube sums) *)
+Theorem C01_std_equals_adaptive_init : forall n lmin lmax s,
+  init_scheme (S n) lmax lmin = Some s ->
+  Permutation (combi_scheme_standard (S n) lmin lmax) (combi_scheme_adaptive s).
+Proof. exact std_equals_adaptive_init. Qed.
+Print Assumptions C01_std_equals_adaptive_init.
+
+(* the same with the hypotheses spelled out: init_scheme succeeds for all 0 <= lmin <= lmax *)
+Theorem C01_std_equals_adaptive_init_exists : forall n lmin lmax, 0 <= lmin <= lmax ->
+  exists s, init_scheme (S n) lmax lmin = Some s /\
+            Permutation (combi_scheme_standard (S n) lmin lmax) (combi_scheme_adaptive s).
+Proof. exact std_perm_check_general. Qed.
+Print Assumptions C01_std_equals_adaptive_init_exists.
+
+(* explicit coefficients of the initial scheme: (-1)^e * C(n, e) with e = lmax - lmin + d*lmin - |k|_1 (sg = sign,
+   PB = Pascal binomial extended by 0 to negative arguments) *)
+Theorem C01_init_coefficient_formula : forall n lmin lmax s k c,
+  init_scheme (S n) lmax lmin = Some s ->
+  (In (k, c) (combi_scheme_adaptive s) <->
+   length k = S n /\ Forall (fun x => lmin <= x) k /\
+   let e := lmax - lmin + Z.of_nat (S n) * lmin - sumZ k in
+   c = sg e * PB n e /\ c <> 0).
+Proof. exact init_coefficient_formula. Qed.
+Print Assumptions C01_init_coefficient_formula.
+
+(* the earlier bounded form of the same statement (kept; subsumed by the general theorem above). BOUNDED: d in 1..5, lmin in 0..3, lmax-lmin in 0..5
    (finite enumeration by vm_compute, lifted with forallb_forall; the bound is part of the statement) *)
 Theorem C01_std_equals_adaptive_init_bounded : forall d lmin span,
   In d (seq 1 5) -> In lmin (zrange 4) -> In span (zrange 6) -> std_eq_adaptive d lmin span = true.
@@ -72,4 +101,19 @@ Example C01_nonvacuous :
 Proof.
   eexists. split; [reflexivity|]. split; [|split; vm_compute; reflexivity].
   apply reachable_inv_from. apply (init_inv 2 3 1). reflexivity.
+Qed.
+
+(* non-vacuity of the general closed-form theorem outside the bounded range: d = 7, lmin = 1, lmax = 3; the grid
+   (1,...,1) carries the coefficient (+1) * C(6,2) = 15 in both schemes *)
+Example C01_std_general_nonvacuous :
+  exists s, init_scheme 7 3 1 = Some s /\
+    In ([1;1;1;1;1;1;1], 15) (combi_scheme_adaptive s) /\ In ([1;1;1;1;1;1;1], 15) (combi_scheme_standard 7 1 3).
+Proof.
+  destruct (std_perm_check_general 6 1 3 ltac:(lia)) as [s [Hs Hp]].
+  exists s. split; [exact Hs|].
+  assert (In ([1;1;1;1;1;1;1], 15) (combi_scheme_adaptive s)) as H.
+  { apply (init_coefficient_formula 6 1 3 s _ _ Hs).
+    split; [reflexivity|]. split; [repeat constructor; lia|]. vm_compute. split; [reflexivity|discriminate]. }
+  split; [exact H|].
+  apply (Permutation_in _ (Permutation_sym Hp)). exact H.
 Qed.
